@@ -121,6 +121,9 @@ class ProgGen:
         x = rng.choice([1, 2, 3, 4, 5, 8, 10, 0.5, 2.5, 12, 100, 1.5])
         if zero_ok and self.allow_zero and rng.random() < 0.08:
             x = 0
+        elif rng.random() < 0.04:
+            # edges of the number range: subnormal, smallest normal, huge. Non-zero, so *not* dimension-polymorphic
+            x = rng.choice([5e-324, 3e-310, 2.2e-308, 2.3e-308, 1e-300, 1e300, 1.7e308])
         if rng.random() < 0.1:
             x = -x
         u = self.unit_text(dim)
